@@ -206,6 +206,17 @@ reg(
     "Two repository executions are compared; tolerances 1e-10..1e-6 (dynamic calibration under jit vs eager differs by rounding sensitivity).",
 )
 
+reg(
+    "C16",
+    "differential monitor: jax.jvp vs jax.grad vs Richardson-extrapolated central differences of the computed output, one output group and one parameter at a time",
+    "A parametrised nonlinear problem on a fixed grid is solved in every factorisation x calibration (dynamic with "
+    "stop_gradient_through_calibration=False) x {filter, fixed-interval} x TS0/TS1 x exact/inexact initial state x equal/unequal "
+    "noise; for each defined (group, parameter) pair - means, stds, output scale, terminal loss, time-series loss vs vector-field "
+    "parameter, initial value, prior base scale, noise level - forward and reverse derivatives must be finite, agree to 1e-8 "
+    "and equal the Richardson differences within 1e-5 plus the differences' own error bar.",
+    "Trusted: float64 Richardson differences with two step sizes (their disagreement is the error bar); JAX AD of everything but the repo's custom rules.",
+)
+
 NOT_BUILT_REASON = "check under construction in this session; not yet registered"
 
 
